@@ -46,6 +46,13 @@ async def slow(*args, **kwargs):
     await asyncio.sleep(3600)
 
 
+async def boom(*args, **kwargs):
+    """A worker that fails: a later flush / gather-and-close without -r then raises its exception."""
+    LOG.append(("boom", repr(args), repr(sorted(kwargs.items()))))
+    await asyncio.sleep(0)
+    raise RuntimeError("boom " + repr(args) + repr(sorted(kwargs.items())))
+
+
 def cb(task_id):
     LOG.append(("cb", repr(task_id), ""))
 
